@@ -212,6 +212,70 @@ def run(pid, tier, seed):
             y = proto.get(blk, "yout")
             if y and y != ["untouched"]:
                 asks.append((model.ask("farkas %s %s" % (key, " ".join(y))), ctx, "infeasible", entry))
+    if pid == "C04":
+        # boxed sweep: many small LPs whose columns all have two finite bounds, solved by the rational dual and primal simplex directly
+        # (bound flips of the long-step dual ratio test, non-basic columns at their upper bound); every OPTIMAL through certOK
+        nbox = 4000 if quick else 40000
+
+        def boxed_lp(r):
+            n, m = r.rint(1, 6), r.rint(1, 3)
+            cols = []
+            for _ in range(n):
+                lo = F(r.rint(-3, 2))
+                shape = r.wchoice([("box", 75), ("lower", 15), ("fixed", 5), ("free", 5)])
+                up = lo + r.rint(1, 5) if shape == "box" else lo if shape == "fixed" else INF
+                cols.append([F(r.rint(-4, 4)), NINF if shape == "free" else lo, up])
+            x0 = [c[1] if c[1] != NINF and r.chance(0.5) else (c[2] if c[2] != INF else (c[1] if c[1] != NINF else F(0))) for c in cols]
+            rows = []
+            for _ in range(m):
+                ent = [(j, F(r.rint(-3, 3))) for j in range(n) if r.chance(0.75)]
+                ent = [(j, a) for j, a in ent if a != 0] or [(r.below(n), F(1))]
+                act = sum((a * x0[j] for j, a in ent), F(0))
+                sn = r.choice("LGR")
+                k = r.rint(0, 3)
+                if sn == "L":
+                    rows.append(["L", act + k, F(0), ent])
+                elif sn == "G":
+                    rows.append(["G", act - k, F(0), ent])
+                else:
+                    rows.append(["R", act - k, F(k + r.rint(0, 3)), ent])
+            return LP(r.choice(["min", "max"]), cols, rows)
+        blps = []
+        for k in range(nbox):
+            r = rng.fork("boxsweep%d" % k)
+            if k % 4 == 0:
+                blps.append(gen.random_lp(r, m=r.rint(2, 5), n=r.rint(1, 4), dens=0.85, shapes=["box", "box", "box", "fixed", "lowerneg"], senses="LGRL"))
+            else:
+                blps.append(boxed_lp(r))
+        blps = [b for b in blps if wf(b)]
+        per = 50
+        bbatches = [blps[i:i + per] for i in range(0, len(blps), per)]
+
+        def bwork(batch):
+            lines = []
+            for n, b in enumerate(batch):
+                lines += ["new 0 " + b.line(), "solve 0 " + ("dual" if n % 3 else "primal")]
+            return proto.run_harness(exe, lines, timeout=900)
+        from concurrent.futures import ThreadPoolExecutor as _TPE
+        with _TPE(build.NCPU) as ex:
+            btrs = list(ex.map(bwork, bbatches))
+        for batch, tr in zip(bbatches, btrs):
+            if tr.crashed and getattr(tr, "returncode", 0) != 0:
+                rep.violation("library crashed in the boxed sweep: " + tr.crashed[-300:], {"lines": [b.line() for b in batch][:5], "stderr": tr.stderr[-1500:]},
+                              signature={"symptom": "crash", "where": "boxed-sweep", "cause": core.crash_cause(tr.stderr)})
+                continue
+            for n, b in enumerate(batch):
+                if 2 * n + 1 >= len(tr):
+                    break
+                blk = tr[2 * n + 1][1]
+                entry = "dual" if n % 3 else "primal"
+                ev.count("boxed|" + b.line(), nontrivial=True)
+                ev.stat("boxed-sweep:" + entry + ":" + (proto.get(blk, "status") or ["?"])[0])
+                if proto.get(blk, "rval") == ["0"] and proto.get(blk, "status") == ["1"]:
+                    x, pi = proto.get(blk, "x"), proto.get(blk, "pi")
+                    if x and pi and x != ["err"] and pi != ["err"]:
+                        ctx = {"lp": b.line(), "config": "boxed sweep: mpq_QSopt_" + entry, "lines": ["new 0 " + b.line(), "solve 0 " + entry]}
+                        asks.append((model.ask("certok %s %s %s" % (b.line(), " ".join(x), " ".join(pi))), ctx, "optimal", entry))
     model.run()
     if ratio_compare:
         ratio_compare()
